@@ -77,7 +77,7 @@ struct MqttSharedQueues {
     inflight: VecDeque<(num::NonZeroU16, Option<pool::Sender<Ack>>, AckType)>,
     inflight_ids: HashSet<num::NonZeroU16>,
     waiters: VecDeque<pool::Sender<()>>,
-    rx: Option<pool::Receiver<Ack>>,
+    rx: VecDeque<(num::NonZeroU16, pool::Receiver<Ack>)>,
 }
 
 impl MqttShared {
@@ -97,7 +97,7 @@ impl MqttShared {
                 inflight: VecDeque::with_capacity(8),
                 inflight_ids: HashSet::default(),
                 waiters: VecDeque::new(),
-                rx: None,
+                rx: VecDeque::new(),
             }),
             inflight_idx: Cell::new(0),
             encode_error: Cell::new(None),
@@ -350,14 +350,14 @@ impl MqttShared {
                     let _ = tx.send(pkt);
                 }
                 let (tx, rx) = self.pool.queue.channel();
-                queues.rx = Some(rx);
+                queues.rx.push_back((idx, rx));
                 queues.inflight.push_back((idx, Some(tx), AckType::Complete));
                 Ok(())
             } else if matches!(pkt, Ack::Complete(_)) {
                 // get publish ack channel
                 log::trace!("Ack packet with id: {}", pkt.packet_id());
                 queues.inflight_ids.remove(&pkt.packet_id());
-                queues.rx.take();
+                queues.rx.retain(|(id, _)| *id != idx);
 
                 if let Some(tx) = tx {
                     let _ = tx.send(pkt);
@@ -505,7 +505,12 @@ impl MqttShared {
         &self,
         id: num::NonZeroU16,
     ) -> Result<pool::Receiver<Ack>, SendPacketError> {
-        let Some(rx) = self.queues.borrow_mut().rx.take() else {
+        let rx = {
+            let mut queues = self.queues.borrow_mut();
+            let pos = queues.rx.iter().position(|(idx, _)| *idx == id);
+            pos.and_then(|pos| queues.rx.remove(pos))
+        };
+        let Some((_, rx)) = rx else {
             return Err(SendPacketError::UnexpectedRelease);
         };
         match self.io.encode(
